@@ -10,6 +10,9 @@
 #include <morfuse/Container/set_archive.h>
 #include <morfuse/Container/Container_archive.h>
 
+#include <cmath>
+#include <cstdint>
+
 using namespace mfuse;
 
 template<>
@@ -49,6 +52,32 @@ intptr_t Hash<ScriptVariable>::operator()(const ScriptVariable& key) const
 }
 
 static ScriptVariable noneVar;
+
+/**
+ * Float to 64-bit integer conversion that is defined for every float:
+ * NaN gives 0, values beyond the 64-bit range saturate,
+ * negative values convert through int64_t (two's complement) like the hardware conversion did.
+ */
+static uint64_t floatToUInt64(float value)
+{
+    if (std::isnan(value)) {
+        return 0;
+    }
+
+    if (value >= 18446744073709551616.f) {
+        return UINT64_MAX;
+    }
+
+    if (value >= 0.f) {
+        return (uint64_t)value;
+    }
+
+    if (value <= -9223372036854775808.f) {
+        return (uint64_t)INT64_MIN;
+    }
+
+    return (uint64_t)(int64_t)value;
+}
 
 ScriptArrayHolder::ScriptArrayHolder()
     : refCount(0)
@@ -1327,7 +1356,7 @@ uint32_t ScriptVariable::intValue() const
         return m_data.int32Value;
 
     case variableType_e::Float:
-        return (uint32_t)m_data.floatValue;
+        return (uint32_t)floatToUInt64(m_data.floatValue);
 
     case variableType_e::String:
     case variableType_e::ConstString:
@@ -1352,7 +1381,7 @@ uint64_t ScriptVariable::longValue() const
         return m_data.long64Value;
 
     case variableType_e::Float:
-        return (uint64_t)m_data.floatValue;
+        return floatToUInt64(m_data.floatValue);
 
     case variableType_e::String:
     case variableType_e::ConstString:
